@@ -36,7 +36,9 @@ func drivers(quick bool) []conc.Driver {
 		{Chunk: 2, Concurrent: true, Cycles: []int{5}, Struct: true}, // struct elements with zero-valued fields
 		{Chunk: 1, Concurrent: true, Cycles: []int{3}, Struct: true},
 		{Chunk: 2, Concurrent: true, Cycles: []int{3}, Local: true}, // a function-local element type whose name another function's local type shares
-		{Chunk: 2, Concurrent: true, Cycles: []int{5}, Hit: true},   // the library's own element type (what pals sorts), negative and large diagonals
+		{Chunk: 2, Concurrent: true, Cycles: []int{5}, Hit: true},
+		{Chunk: 2, Concurrent: true, Cycles: []int{5}, Ties: true},  // every key twice: values that tie under Less, within a run and across runs
+		{Chunk: 2, Concurrent: true, Cycles: []int{5}, Twice: true}, // Finalise called again before the first Pull   // the library's own element type (what pals sorts), negative and large diagonals
 	}
 	if !quick {
 		scs = append(scs,
